@@ -36,7 +36,7 @@ PLAN = {
     },
     "C02": {
         "mc": [MC_POLY],
-        "gen": [G("arith", "Gen_Fn_Arith.cfg"), G("arithdeep", "Gen_Fn_ArithDeep.cfg", tier="thorough"), G("fninfo", "Gen_Fn_FnInfo.cfg")],
+        "gen": [G("arith", "Gen_Fn_Arith.cfg"), G("arithdeep", "Gen_Fn_ArithDeep.cfg", tier="thorough"), G("fninfo", "Gen_Fn_FnInfo.cfg"), G("fmt", "Gen_Fn_Fmt.cfg"), G("ctor", "Gen_Fn_Ctor.cfg")],
         "drive": [D("arith", 3000, 300000)],
         "exhaustive_note": "every (op, lhs kind, rhs kind) the API defines (107 + 7 negations) x a thin operand family per kind",
     },
